@@ -12,6 +12,9 @@ def get_class_counts(classes, n_classes):
             classes = torch.from_numpy(classes).long()
         else:
             classes = torch.tensor(classes, dtype=torch.long)
+    else:
+        # e.g. uint8 label tensors would be interpreted as a mask when they are used as index below
+        classes = classes.long()
     # count unlabeled classes
     unlabeled_count = (classes == -1).sum().item()
     # filter out unlabeled
